@@ -76,7 +76,7 @@ P("C12", "model_checking", kani={"timeout": "600s", "compile_clause": True},
 P("C13", "model_checking", kani={"timeout": "600s"}, rac=["reject"],
   bounded="every legal (kind x handler) for the 4 executable kinds, n<=3, handler at end / between branches, failure flags symbolic; handler call count, argument order, wrapping, awaited value",
   not_decided="spawn kinds")
-P("C16", "model_checking", kani={"timeout": "600s"}, rac=["options"],
+P("C16", "model_checking", kani={"timeout": "600s"}, rac=["options", "futures_path"],
   bounded="logging joiner (macro form) on 8 depth profiles eager/lazy; transposing joiner with transpose_results(false) on 6 profiles; futures_crate_path via a re-export; all four options together",
   not_decided="spawn kinds")
 
